@@ -221,7 +221,7 @@ fn sweep(ctx: &Ctx, res: &mut PartResult, which: &str) {
     }
     for (i, c) in cases.iter().enumerate() {
         if i % 512 == 0 && ctx.over_budget() {
-            res.cap_hit = Some("wall budget".into());
+            res.cap_hit = Some("budget (cpu time of the part)".into());
             res.exhaustive = false;
             break;
         }
